@@ -98,14 +98,15 @@ class Base(S.DispatchStream):
     def expected(self, case, obs):
         """(code | 'result' | None (unconstrained), cids allowed to run exactly once | None (unconstrained), (cls, text) | None)
         for a single-request body — decided from the statement's five classes"""
-        if obs["po"][0] == "error":
-            return -32700, [], None
-        if obs["po"][0] == "empty":
+        # malformed JSON is decided on the text by the standard-library parser (not by the code under test)
+        if case["body"] == "":
             return -32600, [], None
         try:
             e = json.loads(case["body"])
         except ValueError:
             return -32700, [], None
+        if obs["po"][0] == "error":
+            return -32700, [], None           # the class translator rejected the payload
         if isinstance(e, list) and e:
             return None, None, None
         if not S.is_wellformed_request(e) or not K.is_plain_json(K.to_model_val(obs["po"][1])):
@@ -328,7 +329,8 @@ class Malformed(Base):
             for i, ch in (rng.sample(subs, 100) if tier == "quick" else subs):
                 add(text[:i] + ch + text[i + 1:])
         for t in ["{", "}", "[", "nul", "tru", "'a'", "{'a': 1}", "{\"a\" 1}", "[1,]", "{\"a\":1,}", "01", "1.", ".5", "+1", "0x10", "\"\\x\"", "\"unterminated",
-                  "{\"jsonrpc\": \"2.0\", \"method\": \"ok\", \"id\": 1} trailing", "[1 2]", "\ufeff{}", "{\"method\": \"ok\", \"id\": 1}}"]:
+                  "{\"jsonrpc\": \"2.0\", \"method\": \"ok\", \"id\": 1} trailing", "[1 2]", "\ufeff{}", "{\"method\": \"ok\", \"id\": 1}}",
+                  " ", "\n", "\r\n", "\t", "  \n\t ", "\x0b", "\x00"]:
             add(t)
         # structurally invalid objects
         for combo in itertools.product(c02.REPS, repeat=4):
